@@ -33,8 +33,11 @@ let read_cases path =
        | _ -> failwith ("bad line outside case: " ^ l))
     | Some (eng, name, ops) ->
       if l = "END" then (cases := (eng, name, List.rev ops) :: !cases; cur := None)
-      else if (String.length l >= 5 && String.sub l 0 5 = "CRASH") || l = "HANG" || l = "MISSING" || l = "SKIPPED" then cur := Some (eng, name, [z_of_int (-999)] :: ops)
-      else cur := Some (eng, name, parse_line l :: ops)
+      else if (String.length l >= 5 && String.sub l 0 5 = "CRASH") || l = "HANG" || l = "MISSING" then cur := Some (eng, name, [z_of_int (-999)] :: ops)
+      else (* any other line that is not a list of integers (e.g. SKIPPED, sanitizer chatter) is an abnormal-end marker too *)
+        (match (try Some (parse_line l) with _ -> None) with
+         | Some z -> cur := Some (eng, name, z :: ops)
+         | None -> cur := Some (eng, name, [z_of_int (-999)] :: ops))
   done with End_of_file -> ());
   close_in ic;
   List.rev !cases
